@@ -23,8 +23,10 @@
         cells at the same addresses.  See the comment at the theorem for what is not mechanised.
     (5) gather_scatter_generic (full): the lemma every case reduces to -- any sequence of DFKconvert calls whose
         destination cells do not overlap moves exactly the cells it names and nothing else.
-    (6) model_follows_source: the conversion-call / pointer-update skeleton of VSread and VSwrite and the field
-        order of the header codec in the CURRENT vrw.c / vio.c are the ones the model was written from. *)
+    (6) model_follows_source: the conversion-call / pointer-update skeleton of VSread and VSwrite, the field
+        order of the header codec and the length bookkeeping of VSsetname / VSsetclass in the CURRENT vrw.c / vio.c /
+        vg.c are the ones the model was written from.
+    (7) header_size_change_is_flagged (full). *)
 From Coq Require Import ZArith List Bool Lia.
 Require Import H4.gen.Gen_VS H4.VSModel H4.VTableSpec H4.VSProofs H4.VSCodecProofs H4.VSChunkProofs H4.VSLayoutProofs H4.VSFullProofs.
 Import ListNotations.
@@ -206,9 +208,31 @@ Print Assumptions gather_scatter_generic.
 (** (6) the model follows the current source *)
 Theorem model_follows_source :
   VSwrite_skeleton = VSwrite_skeleton_modelled /\ VSread_skeleton = VSread_skeleton_modelled /\
-  vpackvs_order = vpackvs_order_modelled /\ vunpackvs_order = vunpackvs_order_modelled.
+  vpackvs_order = vpackvs_order_modelled /\ vunpackvs_order = vunpackvs_order_modelled /\
+  VSsetname_len_stmts = VSsetname_len_stmts_modelled /\ VSsetclass_len_stmts = VSsetclass_len_stmts_modelled.
 Proof. exact model_follows_source_lemma. Qed.
 Print Assumptions model_follows_source.
+
+(** (7) header size: whenever VSsetclass / VSsetname change the size of the packed header (vpackvs) -- longer OR shorter --
+    they leave the flag set that makes VSdetach release the old header element before writing the new one (the header is
+    decoded from both ends of the element: vunpackvs reads version / more at len - 5, so a longer old element must not
+    be rewritten in place); the comparison is with the CURRENT string of the same kind (statements of vg.c tied by
+    model_follows_source, condition regenerated) *)
+Theorem header_size_change_is_flagged :
+  (forall il nv ivs fl nm c et er v mo c' flag, Z.of_nat (length c) <= VSNAMELENMAX ->
+     length (m_vpackvs (mkvh il nv ivs fl nm c et er v mo)) <>
+     length (m_vpackvs (mkvh il nv ivs fl nm (fst (m_setclass c c' flag)) et er v mo)) ->
+     snd (m_setclass c c' flag) = true) /\
+  (forall il nv ivs fl nm c et er v mo n' flag, Z.of_nat (length nm) <= VSNAMELENMAX ->
+     length (m_vpackvs (mkvh il nv ivs fl nm c et er v mo)) <>
+     length (m_vpackvs (mkvh il nv ivs fl (fst (m_setname nm n' flag)) c et er v mo)) ->
+     snd (m_setname nm n' flag) = true) /\
+  (forall grow cur new flag, Z.of_nat (length (fst (m_setstr grow cur new flag))) <= VSNAMELENMAX).
+Proof. exact (conj setclass_flags_change (conj setname_flags_change setstr_bounded)). Qed.
+Print Assumptions header_size_change_is_flagged.
+Example ex_header_grows : snd (m_setclass [114;97;119] [99;97;108;105;98] false) = true /\
+  snd (m_setclass [99;97;108;105;98] [114;97;119] false) = true /\ snd (m_setclass [114;97;119] [99;97;108] false) = false /\ fst (m_setname [] (repeat 65 70) false) = repeat 65 64.
+Proof. vm_compute. repeat split. Qed.
 
 (** Non-vacuity: concrete, non-trivial states meeting the hypotheses *)
 Definition ex_fl : list wfield :=
